@@ -39,6 +39,17 @@ pub fn run_stream(out: &mut Out, prop: &str, rng: &mut Rng, n: u64) {
                 if *got >= m { out.monitor_fail("C15", "router swap delivering at least minimum_receive was rejected", replay.clone()); }
             }
         }
+        // "requests within the limits are not rejected for slippage": a route (nothing parked on the router) refused for slippage although the
+        // user's own hop-by-hop execution with the same max_spread goes through on every pair
+        if prop == "C15" && !case.has_donation() && case.offer > 0 {
+            if let Outcome::Err(c) = &base.exec {
+                if *c == E_SLIPPAGE {
+                    out.monitor_evals += 1;
+                    if run_hops_directly(&case) == Some(true) { out.monitor_fail("C15", "a route was refused for slippage although every hop, executed directly with the same max spread, is accepted", replay.clone()); }
+                    out.count("router:slippage_refusal_cross_checked");
+                }
+            }
+        }
         if let Outcome::Ok(g) = &run.exec { if *g > 0 && case.hops.len() >= 2 { out.nontrivial_key(hash_str(&case.coq())); } }
         if k < 2 { out.sample(replay.clone()); }
         let mut obs: Vec<String> = match &run.sim { Ok(v) => vec!["0".into(), v.to_string()], Err(_) => vec!["1".into()] };
